@@ -3,9 +3,22 @@
   The model's prediction is the theorem's content: no unsynchronised conflicting accesses (outside the
   locations listed in `Gozod.C14.knownRacy`), results equal to the run-alone results.
 -/
+import Gozod.Model.LockSet
+import Gozod.Gen.LockSets
 namespace Gozod.Drv.C14
+open Gozod.LockSet
+
+/-- `conflicts`: the cells of the regenerated table (outside `knownRacy`) that are not `ok`, as
+    `<loc>=<fn>+<fn>` joined by `,` — used to aim the race harness when the table proof breaks. -/
+def conflictLine : String :=
+  let cs := conflicts (without knownRacy Gen.LockSets.table)
+  let locs := (cs.map (·.1)).eraseDups
+  ",".intercalate (locs.map (fun l =>
+    let fns := ((cs.filter (·.1 == l)).flatMap (fun c => [c.2.1, c.2.2])).eraseDups
+    s!"{l}={"+".intercalate fns}"))
 
 def handle : List String → String
+  | ["conflicts"] => s!"conflicts:{conflictLine}"
   | ["race", _] => "norace ok\tnorace ok"
   | _ => "bad-op"
 
